@@ -156,22 +156,35 @@ func atomic(target string) {
 	const G = 8
 	switch target {
 	case "TopK.Insert":
-		// every goroutine inserts the same key; in any sequential order the heap entry of that key
-		// ends with the total number of inserts (wide sketch: no collisions)
-		for trial := 0; trial < 400; trial++ {
-			t := gx.NewTopK(3, 0.001, 0.999)
-			t.Insert([]byte("a"), 1000)
-			t.Insert([]byte("b"), 2000)
-			parallel(G, 40, func(w, i int) { t.Insert([]byte("hot"), 1) })
-			got := uint64(0)
+		// every goroutine inserts the same key; in any sequential order (a) a caller that has
+		// completed n inserts of the key sees a count of at least n, and (b) at the end the entry
+		// holds the total number of inserts (wide sketch: no collisions)
+		hotCount := func(t *gx.TopK) uint64 {
 			for _, e := range t.Values() {
-				el, c := gx.VerifTopKElement(e)
-				if el == "hot" {
-					got = c
+				if el, c := gx.VerifTopKElement(e); el == "hot" {
+					return c
 				}
 			}
-			if got != G*40 {
-				fail("TopK: %d goroutines x 40 Insert(hot,1): Values reports hot=%d, every sequential order gives %d (trial %d)", G, got, G*40, trial)
+			return 0
+		}
+		for trial := 0; trial < 300; trial++ {
+			t := gx.NewTopK(4, 0.001, 0.999)
+			t.Insert([]byte("cold"), 1)
+			var bad sync.Once
+			var msg string
+			parallel(G, 60, func(w, i int) {
+				t.Insert([]byte("hot"), 1)
+				if c := hotCount(t); c < uint64(i+1) {
+					bad.Do(func() {
+						msg = fmt.Sprintf("goroutine %d completed %d Insert(hot,1) calls and then read hot=%d from Values()", w, i+1, c)
+					})
+				}
+			})
+			if msg != "" {
+				fail("TopK: a caller does not observe its own completed updates: %s (trial %d)", msg, trial)
+			}
+			if got := hotCount(t); got != G*60 {
+				fail("TopK: %d goroutines x 60 Insert(hot,1): Values reports hot=%d, every sequential order gives %d (trial %d)", G, got, G*60, trial)
 			}
 		}
 	case "CuckooFilter.Remove":
